@@ -113,7 +113,8 @@ def build(tier, seed):
                 continue
             obs.append(Ob(f"C01.lift[n={n},k={k}]", "proof", FNL + [G + ":GateOperation.lifted_matrix"], lift_ob(n, k),
                           f"embedding of a generic {2**k}x{2**k} matrix on EVERY ordered {k}-tuple of distinct qubits of a {n}-qubit register equals the element-wise "
-                          f"definition (both adapters and GateOperation.lifted_matrix)", timeout=600))
+                          f"definition (both adapters and GateOperation.lifted_matrix)", timeout=600,
+                          fallback=vprop.enum_ob("x", [], lambda: [0, 7], _check_native, "").run))
 
     FNC = [C + ":Circuit.to_unitary", C + ":Circuit.__init__", C + ":_circuit_size_by_operations", C + ":_append_operation", C + ":_append_circuit",
            G + ":GateOperation.apply", G + ":GateOperation.lifted_matrix"]
@@ -268,12 +269,12 @@ def build(tier, seed):
                                                      C + ":split_circuit", WO + ":MultiPhaseOperation.apply"], sim_ob(kind),
                       f"{kind} simulator: final state of a 3-qubit circuit of generic gates with phase-only operations interleaved equals the ordered product "
                       f"applied to a generic / the default initial state", timeout=300,
-                      fallback=vprop.enum_ob("x", [], lambda: [2, 4], _check_native, "").run))
+                      fallback=vprop.enum_ob("x", [], lambda: [2, 4, 5], _check_native, "").run))
 
     # ---- all circuit lengths / widths: structure of to_unitary and concatenation over the abstract gate model (Engine V)
     from vfw import cmodel, vcontract as vc
     cs = cmodel.contracts()
-    fbn = vprop.enum_ob("x", [], lambda: range(5), _check_native, "").run
+    fbn = vprop.enum_ob("x", [], lambda: range(8), _check_native, "").run
 
     def setup_self(args, ns):
         args["self"] = cmodel.mk_circuit(ns, "self")
@@ -290,10 +291,11 @@ def build(tier, seed):
     obs.append(vprop.fn_ob("C01", cs["append"], {}, call=lambda ns, a: ns["_append_circuit"](a["other"], a["circuit"]), setup=setup_two, overrides=cmodel.overrides(), fallback=fbn,
                            obid="C01.append_circuit.all_lengths.contract", replay_code=cmodel.replay("append"), timeout_ms=30000,
                            desc="for circuits of ANY length: c1 + c2 has the operations of c1 followed by those of c2 and the larger register width"))
-    obs.append(vprop.enum_ob("C01.native.enum", FNL + FNC, lambda: range(5), _check_native,
+    obs.append(vprop.enum_ob("C01.native.enum", FNL + FNC, lambda: range(8), _check_native,
                              "bounded: native numeric path - random gates on random placements vs the element-wise definition (n<=5, arity<=4), built-in circuits incl. H, "
                              "the same wrapped gates with equal parameters used twice in one process, SymbolicSimulator vs to_unitary; concatenation of all pairs from a pool incl. operation-less "
-                             "circuits with declared widths; explicit complex initial states reused across calls", exhaustive=False, timeout=600))
+                             "circuits with declared widths; explicit complex initial states reused across calls; base-class simulators with six kinds of native sets and phase operations anywhere; "
+                             "circuits of 15..257 operations; free-symbol gates on every ordered tuple (n <= 4)", exhaustive=False, timeout=900))
     return obs
 
 
@@ -396,6 +398,82 @@ def _check_native(mode):
                     op.apply(w0)
                     if not np.array_equal(w0, keep):
                         return False, f"{op}.apply modified the vector it was given"
+        return True, "ok"
+    if mode == 5:
+        # base-class simulators with every kind of native set, phase-only operations anywhere (first, last, adjacent, between non-commuting gates):
+        # the state is the ordered product; the circuits counter grows by the number of native segments actually run
+        from orquestra.quantum.api.wavefunction_simulator import BaseWavefunctionSimulator
+        from orquestra.quantum.circuits import MultiPhaseOperation, GateOperation
+        from orquestra.quantum.wavefunction import Wavefunction
+
+        def make(native):
+            class Sim(BaseWavefunctionSimulator):
+                runs = 0
+
+                def is_natively_supported(self, op):
+                    return native(op)
+
+                def _get_wavefunction_from_native_circuit(self, circuit, initial_state):
+                    Sim.runs += 1
+                    st = np.array(initial_state, dtype=complex)
+                    for op in circuit.operations:
+                        st = np.array(op.apply(st), dtype=complex).ravel()
+                    return Wavefunction(st)
+            return Sim
+        natives = {"gates": lambda op: isinstance(op, GateOperation), "nothing": lambda op: False, "everything": lambda op: True,
+                   "one-qubit gates": lambda op: isinstance(op, GateOperation) and len(op.qubit_indices) == 1,
+                   "two-qubit gates": lambda op: isinstance(op, GateOperation) and len(op.qubit_indices) == 2,
+                   "phases only": lambda op: isinstance(op, MultiPhaseOperation)}
+        mp = lambda k: MultiPhaseOperation(tuple(0.1 * (i + 1) * (k + 1) for i in range(8)))
+        circuits = [[mp(0), CNOT(0, 1), mp(1)], [mp(0)], [mp(0), mp(1), H(0)], [H(0), mp(0), CNOT(0, 2), RX(0.3)(1), mp(1), SWAP(1, 2), mp(2)],
+                    [H(1), CNOT(1, 0), mp(0), H(2), mp(1), mp(2), T(0), CNOT(2, 1)], [RX(0.4)(0), mp(0), RY(0.7)(0), mp(1), CNOT(0, 1), mp(0), H(1)]]
+        for name, native in natives.items():
+            for ops in circuits:
+                c = Circuit(ops, n_qubits=3)
+                W = np.eye(8, dtype=complex)
+                for op in ops:
+                    W = (embed(np.array(op.gate.matrix.tolist(), dtype=complex), op.qubit_indices, 3) if hasattr(op, "gate") else np.diag(np.exp(1j * np.array(op.params, dtype=float)))) @ W
+                Sim = make(native)
+                sim = Sim()
+                a = np.array(sim.get_wavefunction(c).amplitudes, dtype=complex).ravel()
+                if not np.allclose(a, W[:, 0], atol=1e-9):
+                    return False, f"simulator whose native set is '{name}', circuit {c}: state differs from the ordered product (max deviation {abs(a - W[:, 0]).max():.3g})"
+                if sim.n_circuits_executed != Sim.runs:
+                    return False, f"simulator whose native set is '{name}', circuit {c}: n_circuits_executed = {sim.n_circuits_executed} but {Sim.runs} native segments were run"
+        return True, "ok"
+    if mode == 6:
+        # long circuits (lengths around powers of two and 100): to_unitary equals the ordered product
+        pool = [H(0), CNOT(0, 1), RX(0.37)(2), T(1), CNOT(1, 2), RY(1.1)(0), SWAP(0, 2), S(2)] if False else None
+        from orquestra.quantum.circuits import S
+        pool = [H(0), CNOT(0, 1), RX(0.37)(2), T(1), CNOT(1, 2), RY(1.1)(0), SWAP(0, 2), S(2)]
+        for L_ in (15, 16, 17, 31, 33, 63, 64, 65, 100, 129, 257):
+            ops = [pool[(j * 5 + j // 7) % len(pool)] for j in range(L_)]
+            c = Circuit(ops, n_qubits=3)
+            W = np.eye(8, dtype=complex)
+            for op in ops:
+                W = embed(np.array(op.gate.matrix.tolist(), dtype=complex), op.qubit_indices, 3) @ W
+            U = np.array(c.to_unitary(), dtype=complex)
+            if not np.allclose(U, W, atol=1e-8):
+                return False, f"to_unitary of a circuit of {L_} operations differs from the ordered product (max deviation {abs(U - W).max():.3g})"
+            st = np.zeros(8, dtype=complex)
+            st[0] = 1
+            if L_ in (65, 129) and not np.allclose(np.array(SymbolicSimulator().get_wavefunction(c).amplitudes, dtype=complex).ravel(), W[:, 0], atol=1e-8):
+                return False, f"SymbolicSimulator on a circuit of {L_} operations differs from the ordered product"
+        return True, "ok"
+    if mode == 7:
+        # gates that still carry a free symbol go through the symbolic embedding: every ordered tuple, 2- and 3-qubit gates
+        th = sympy.Symbol("theta")
+        from orquestra.quantum.circuits import XX, CPHASE
+        for n in (2, 3, 4):
+            for mk in (lambda t: RY(t).controlled(1), XX, CPHASE, lambda t: RX(t).controlled(2)):
+                k = mk(0.1).num_qubits
+                if k > n:
+                    continue
+                for qs in itertools.permutations(range(n), k):
+                    Ls = np.array(sympy.Matrix(mk(th)(*qs).lifted_matrix(n)).subs({th: 0.7}).evalf().tolist(), dtype=complex)
+                    Ln = embed(np.array(mk(0.7).matrix.tolist(), dtype=complex), qs, n)
+                    if Ls.shape != Ln.shape or not np.allclose(Ls, Ln, atol=1e-9):
+                        return False, f"symbolic embedding of {mk(th)} on qubits {qs} of {n} differs from the definition after substituting theta"
         return True, "ok"
     c = Circuit([H(0), CNOT(0, 2), RX(0.4)(1), SWAP(2, 1), T(0), CNOT(2, 0)], n_qubits=4)
     U = np.array(c.to_unitary(), dtype=complex)
